@@ -1,0 +1,21 @@
+//go:build verif
+
+package crypto
+
+// Contracts checked by /verif's govc.  Comments only; build tag "verif".
+
+//@ unit crypto
+//@
+//@ // ===== C12: a signature is accepted only as a whole: the bytes handed to the primitive are the signature
+//@ // bytes that were given (appended or dropped bytes must not verify), over the data that was given, with the
+//@ // key of this object; the answer is the primitive's answer
+//@ extern ed25519.Verify(key, data, sig) -> (ok)
+//@ func (*ed25519PublicKey).Verify -> (ok, err)
+//@   assert before call#1 Verify: sameslice(arg2, sig) && sameslice(arg1, data) && sameslice(arg0, k.key)
+//@   ensures err == nil && ok == res(Verify, 1, 0)
+//@   tags C12
+//@ func (*secp256k1PublicKey).Verify -> (ok, err)
+//@   assert before call#1 ParseDERSignature: sameslice(arg0, sig)
+//@   assert before call#1 Sum256: sameslice(arg0, data)
+//@   ensures res(ParseDERSignature, 1, 1) != nil ==> !ok
+//@   tags C12
